@@ -250,7 +250,7 @@ pub struct Op {
     /// NewFloat: [len, w, h]
     pub geo: [u64; 16],
     pub cfg: CfgI,
-    /// NewFloat / Conv with (t,p): transfer and primaries indices
+    /// NewFloat / Conv with (t,p): transfer and primaries indices; NewYuv: (xdec, ydec) of the LUMA plane
     pub t: u64,
     pub p: u64,
     pub dataseed: u64,
@@ -258,7 +258,8 @@ pub struct Op {
     /// 5 several out-of-range visible samples (always including the one mode 2 would have),
     /// 6 two to four EQUAL out-of-range samples, 7 every sample the same out-of-range value
     /// NewFloat: 0 unit cube, 1 [-0.5,1.5], 2 special values, 3 HSL ranges, 4 arbitrary bit patterns,
-    /// 6 runs of repeated pixels from a small palette, zeros changing sign inside a run
+    /// 6 runs of repeated pixels from a small palette, zeros changing sign inside a run,
+    /// 7 grey pixels on quantisation boundaries (k + 0.5 codes) +- 2 ulp
     pub datamode: u64,
     /// NewYuv: 0 = leave v_frame's default padding (128), else seed for padding contents
     pub padseed: u64,
@@ -357,7 +358,7 @@ impl Op {
                 if [g[0], g[1], g[2], g[3], g[6], g[7]].iter().any(|d| *d == 0 || *d > 2048) {
                     return bad("plane dimension");
                 }
-                if [g[4], g[5], g[8], g[9]].iter().any(|d| *d > 2) || g[10..16].iter().any(|d| *d > 40) {
+                if [g[4], g[5], g[8], g[9], self.t, self.p].iter().any(|d| *d > 2) || g[10..16].iter().any(|d| *d > 40) {
                     return bad("decimation / padding");
                 }
             }
@@ -719,7 +720,7 @@ impl Gen<'_> {
         // hundreds of thousands are out of reach of everything below
         let video_one_in = if self.prof == Profile::Metadata { 400 } else { 2500 };
         let (mut w, mut h) = if self.r.below(video_one_in) == 0 {
-            let (vw, vh) = self.r.pick(&[(720u64, 480u64), (720, 576), (704, 488), (640, 480), (768, 576), (1024, 768), (960, 720), (1280, 720), (256, 258), (320, 240), (352, 288), (1280, 576), (1280, 480), (1281, 488), (1279, 576), (1280, 577)]);
+            let (vw, vh) = self.r.pick(&[(720u64, 480u64), (720, 576), (704, 488), (640, 480), (768, 576), (1024, 768), (960, 720), (1280, 720), (256, 258), (320, 240), (352, 288), (1280, 576), (1280, 480), (1281, 488), (1279, 576), (1280, 577), (1279, 577), (1279, 575), (1281, 576), (1279, 480), (1279, 488)]);
             // exact sizes (the thresholds of the heuristic) half of the time, a few rows/columns
             // more otherwise (band and chunk sizes rarely divide those)
             if self.r.pct(50) || self.prof == Profile::Metadata {
@@ -827,6 +828,12 @@ impl Gen<'_> {
             // invisible alignment slots get arbitrary contents too
             op.padseed = self.r.next() | 1;
         }
+        // now and then the LUMA plane carries decimation fields of its own (a half-resolution
+        // proxy made with `Plane::downsampled` does); no acceptance rule mentions them
+        if self.r.pct(8) {
+            op.t = self.r.below(3);
+            op.p = self.r.below(3);
+        }
         // a quarter of the frames are built with `Plane::from_slice`: rows packed back to back
         // (stride == width, no alignment slack, buffer exactly width*height samples)
         if self.r.pct(25) {
@@ -890,7 +897,9 @@ impl Gen<'_> {
         }
         op.dataseed = self.r.next();
         let special = if self.prof == Profile::Safety { 30 } else { 8 };
-        op.datamode = if self.r.pct(6) {
+        op.datamode = if self.r.pct(5) && class != CL_HSL {
+            7 // grey pixels on quantisation boundaries
+        } else if self.r.pct(6) {
             6 // runs of repeated pixels with sign flips of zeros
         } else if self.prof == Profile::Metadata && class != CL_HSL && self.r.pct(80) {
             0
